@@ -278,8 +278,8 @@ def run_units(tag, harnesses, per_harness_timeout, jobs=8, keep=False, modules=N
                          (ffi, ffi_extra)):
         if not batch:
             continue
-        cmds.append("cargo kani " + " ".join(KANI_FLAGS) + " " + " ".join("--harness " + h for h in batch) +
-                    " -j %d --output-format terse " % jobs + " ".join(extra))
+        cmds.append("cargo kani " + " ".join(KANI_FLAGS) + (" -Z c-ffi" if batch is ffi else "") + " " +
+                    " ".join("--harness " + qualified(h) for h in batch) + " --exact -j %d --output-format terse " % jobs + " ".join(extra))
         n_batches = (len(batch) + jobs - 1) // jobs
         rc, out, secs = cargo_kani(root, batch, extra, timeout=per_harness_timeout * n_batches + 600, jobs=jobs)
         info["verify_s"] = round(info["verify_s"] + secs, 1)
